@@ -15,10 +15,12 @@
 package proxy
 
 import (
+	"fmt"
 	"io"
 	"net"
 	"reflect"
 	"strings"
+	"sync"
 
 	libio "github.com/fatedier/golib/io"
 
@@ -39,6 +41,12 @@ type HTTPProxy struct {
 	cfg *v1.HTTPProxyConfig
 
 	closeFuncs []func()
+
+	// work connections handed to the http reverse proxy that are not closed yet,
+	// including the ones it keeps idle for reuse.
+	connMu    sync.Mutex
+	workConns map[net.Conn]struct{}
+	closed    bool
 }
 
 func NewHTTPProxy(baseProxy *BaseProxy) Proxy {
@@ -182,8 +190,27 @@ func (pxy *HTTPProxy) GetRealConn(remoteAddr string) (workConn net.Conn, err err
 	}
 
 	workConn = netpkg.WrapReadWriteCloserToConn(rwc, tmpConn)
-	workConn = netpkg.WrapStatsConn(workConn, pxy.updateStatsAfterClosedConn)
+	var statsConn *netpkg.StatsConn
+	statsConn = netpkg.WrapStatsConn(workConn, func(totalRead, totalWrite int64) {
+		pxy.connMu.Lock()
+		delete(pxy.workConns, statsConn)
+		pxy.connMu.Unlock()
+		pxy.updateStatsAfterClosedConn(totalRead, totalWrite)
+	})
+	workConn = statsConn
 	metrics.Server.OpenConnection(pxy.GetName(), pxy.GetConfigurer().GetBaseConfig().Type)
+
+	pxy.connMu.Lock()
+	if pxy.closed {
+		pxy.connMu.Unlock()
+		workConn.Close()
+		return nil, fmt.Errorf("proxy [%s] is closed", pxy.GetName())
+	}
+	if pxy.workConns == nil {
+		pxy.workConns = make(map[net.Conn]struct{})
+	}
+	pxy.workConns[statsConn] = struct{}{}
+	pxy.connMu.Unlock()
 	return
 }
 
@@ -199,5 +226,19 @@ func (pxy *HTTPProxy) Close() {
 	pxy.BaseProxy.Close()
 	for _, closeFn := range pxy.closeFuncs {
 		closeFn()
+	}
+
+	// The reverse proxy keeps work connections idle for reuse, keyed by route only.
+	// Close the ones that belong to this proxy so that they are released with it and
+	// can never serve a request for whoever registers the same route next.
+	pxy.connMu.Lock()
+	pxy.closed = true
+	conns := make([]net.Conn, 0, len(pxy.workConns))
+	for c := range pxy.workConns {
+		conns = append(conns, c)
+	}
+	pxy.connMu.Unlock()
+	for _, c := range conns {
+		c.Close()
 	}
 }
